@@ -176,7 +176,7 @@ PROPS["C04"] = {
 PROPS["C03"] = {
     "props": ["OsmVerif.Props.C03"],
     "gens": ["Schema"],
-    "required_theorems": ["scanner_dispatch_exact", "names_eq_osm_xml", "unmarshal_attr_perm", "unmarshal_ignores_unknown", "scanner_cases_eq_osm_fields",
+    "required_theorems": ["scanner_dispatch_exact", "unknown_elements_skipped", "names_eq_osm_xml", "unmarshal_attr_perm", "unmarshal_ignores_unknown", "scanner_cases_eq_osm_fields",
                           "action_cases", "stream_eq_whole", "stream_only_known", "change_blocks_accumulate", "scanner_decoder_default"],
     "technique": "Lean 4 theorems over the struct-tag schema and dispatch labels regenerated from the source (schema = pinned OSM XML vocabulary; attribute decoding independent of order and unknown attributes; scanner dispatch = OSM fields; per-kind stream = whole-document collections; osmChange blocks accumulate); documents from an independent XML writer decoded at once and by the streaming scanner and compared with the written values",
     "level_text": "Machine-checked proof over the schema regenerated from the source: every codec struct is decoded from exactly the pinned OSM XML names; the attribute decoder of every record type is independent of attribute order and ignores unknown attributes; the scanner dispatches, on the element's exact local name, on exactly the element names the OSM struct decodes, so per kind the streaming sequence equals the whole-document collection in document order, also across repeated and interleaved osmChange blocks. Tokenizer-level claims (entity escaping, whitespace, comments, self-closing tags) and the reflection decoder are trusted encoding/xml behaviour; they are exercised on every run by an independent XML writer (own vocabulary table) whose documents - all element kinds, optional attributes toggled, Unicode text, random layout, unknown attributes/elements, interleaved change blocks, diff actions - are decoded with xml.Unmarshal and with osmxml.Scanner and compared with the written values.",
